@@ -240,6 +240,8 @@ class Gen:
         elif rng.random() < 0.12:
             spec['result'] = rng.choice([0, '', False, [], 0.0])     # falsy results
         spec['steps'] = self.steps(depth + 1)
+        if rng.random() < 0.06:
+            spec['cancel_at_once'] = True
         self.tasks.append(name)
         return spec
 
